@@ -10,6 +10,13 @@
 //! + Support function and operators registration
 //! + Support operator redirection
 #![allow(unexpected_cfgs)]
+#[cfg(feature = "verif_sim")]
+#[macro_use]
+mod verif_tls {
+    // verification seam: a `thread_local!` written anywhere in this crate becomes the simulator's
+    // (one value per simulated task, fresh in every simulated process)
+    macro_rules! thread_local { ($($t:tt)*) => { shuttle::thread_local! { $($t)* } }; }
+}
 mod define;
 mod error;
 mod parser;
